@@ -169,6 +169,13 @@ def respond (t : JoinTable) (op : String) (args : List Bytes) : String :=
     -- in GitHub mode an out-of-date rule is not named on stdout (only the closing ::error:: line is printed)
     "ok " ++ (if r.ok then "01" else "00") ++ " " ++ toHexArg (joinCh ',' r.unchanged) ++ " " ++
       toHexArg (if gh == ['1'] then [] else joinCh ',' r.changed)
+  | "cli.compareOut", gh :: ue :: us :: un :: we :: ws :: wn :: arg :: files =>
+    let r := CompareView.compareOut (tableEngine t) ⟨ue, us, un, we, ws, wn⟩ Parser.sortedOrd Parser.sortedOrd (gh == ['1']) (decodeTree files) arg
+    "ok " ++ (if r.2 then "01" else "00") ++ " " ++ toHexArg r.1
+  | "cli.compareAllOut", gh :: ue :: us :: un :: we :: ws :: wn :: files =>
+    let r := CompareView.compareAllOut (tableEngine t) ⟨ue, us, un, we, ws, wn⟩ Parser.sortedOrd Parser.sortedOrd (gh == ['1']) (decodeTree files)
+    "ok " ++ (if r.2 then "01" else "00") ++ " " ++ toHexArg r.1
+  | "compare.view", [id, cur, gen] => "ok " ++ toHexArg (CompareView.changedText id cur gen)
   | "cli.compare", ue :: us :: un :: we :: ws :: wn :: arg :: files =>
     let r := Cli.compareCmd (tableEngine t) ⟨ue, us, un, we, ws, wn⟩ Parser.sortedOrd Parser.sortedOrd (decodeTree files) arg
     "ok " ++ (if r.ok then "01" else "00") ++ " " ++ toHexArg (joinCh ',' r.unchanged) ++ " " ++ toHexArg (joinCh ',' r.changed)
